@@ -216,6 +216,16 @@ def main():
                         opts["scale"] = TimeScale()
                     dd = [dict(x) for x in data]
                     L.call(cls.__name__ + ".export.dst-window", lambda *_a: cls(dd, options=opts).export(), [x["time"] for x in data], own_scale)
+            # derived domains whose EARLIEST (resp. latest) item lies inside the window, with another item shortly after (before)
+            # its end: which item is the extreme one must not depend on how the zone orders skipped/repeated wall-clock values
+            wmin = timedelta(minutes=width)
+            for name, ts in (("earliest-in-window", [w0 + wmin * 0.2, w0 + wmin * 0.55, w0 + wmin * 1.15, w0 + wmin * 1.6, w0 + timedelta(hours=3)]),
+                             ("latest-in-window", [w0 - timedelta(hours=3), w0 - wmin * 0.6, w0 - wmin * 0.15, w0 + wmin * 0.45, w0 + wmin * 0.8])):
+                data = [{"time": t.replace(microsecond=0), "width": 20 + 3 * i, "text": "E%d" % i} for i, t in enumerate(ts)]
+                for cls in (TimelineSVG, TimelineTex):
+                    opts = {"direction": "right", "initialWidth": 300, "initialHeight": 900, "labella": {"maxPos": 860}}
+                    dd = [dict(x) for x in data]
+                    L.call(cls.__name__ + ".export." + name, lambda *_a: cls(dd, options=opts).export(), [x["time"] for x in data], name)
             s2 = TimeScale().domain([w0 - timedelta(minutes=20), w0 + timedelta(minutes=width + 20)]).range([0, 500])
             for i in range(4):
                 q = w0 + timedelta(minutes=width * i / 4.0)
